@@ -868,7 +868,10 @@ class MultiTaskReplayBuffer:
         else:
             raise ValueError("No rng provided.")
 
-        self.sampled_task_idx = rng.choice(list(self.active_buffers), size=1)[0]
+        # sorted: the iteration order of a set is not preserved by pickling
+        self.sampled_task_idx = rng.choice(
+            sorted(self.active_buffers), size=1
+        )[0]
 
         return self.buffers[self.sampled_task_idx].sample_batch(
             *args, rng=rng, **kwargs
